@@ -24,6 +24,23 @@ instance() and witness shape, rule subsets of the same size bound:
            break bond (a0,a1) or (a1,a2)", in SMARTS and RING form.  With
            a0, a2 of one type the pattern is mirror-symmetric and the edit is
            not: two labellings of the same atom set give different products.
+
+Fourth wave, two further families (domains/w4_c17.py), same oracle:
+  aro     - 6 aromatic molecules (benzene, toluene, phenol, pyridine, furan,
+            pyrrole) x {aromatic spelling, Kekule spelling}, one seed at a
+            time, x rule subsets (same size bound) of the base pool plus three
+            scissions naming an aromatic atom (aryl C-H, aryl C-C, aryl C-O),
+            in SMARTS and RING form, as strings and as rule objects.  Same
+            instance() and witness shape as the other families.
+  session - histories: the SAME rules serve two networks one after the other
+            in one process.  Step alphabet: every distinct heavy-atom order of
+            methanol and ethanol (thorough: also acetaldehyde, propane) as a
+            seed text; all ordered pairs of steps x rule subsets (same size
+            bound) of {C-C, C-H, C-O, O-H scission} x {SMARTS, RING text} x
+            {the same rule objects in a fresh list per call, one caller-owned
+            list of rule texts passed to both calls}.  Every network of the
+            history is judged against the reference closure of its own seed;
+            the witness carries the whole history (kind 'session').
 """
 import itertools
 import re
@@ -31,6 +48,7 @@ import re
 from ..runner import Result
 from ..models import closure as CL
 from ..domains import w3_c17 as W3
+from ..domains import w4_c17 as W4
 
 LEVEL = 'model_checking'
 SEEDS = ['C', 'CC', 'CCC', 'C=C', 'CO', 'CCO', 'C1CC1', 'C=O', '[CH2]C', '[H][H]']
@@ -66,7 +84,9 @@ POOL = {
 }
 # every rule any family can name (witnesses carry names only)
 RULES = dict(W3.all_rules())
+RULES.update(W4.all_rules())
 RULES.update(POOL)
+ARO = sorted(POOL) + sorted(W4.aro_pool())
 CHAIN = sorted(W3.chain_pool())
 KMAX = {'quick': 2, 'thorough': 3}
 BOUND = {t: '55 seed sets (all 1- and 2-subsets of 10 molecules incl. a radical and H2) x all non-empty '
@@ -76,12 +96,22 @@ BOUND = {t: '55 seed sets (all 1- and 2-subsets of 10 molecules incl. a radical 
             '{C-H, X-H, C-X scission, C-X->C=X, C=X->C#X} (SMARTS: 5 rules, RING: the 3 scissions) x '
             '{strings, rule objects}; plus chain: 12 single seeds of 3-4 heavy atoms over C/O x all '
             'non-empty rule sets of size <= %d from the 16 rules {a0-a1-a2 over {C,O}^3} x {break '
-            '(a0,a1), break (a1,a2)} x {SMARTS, RING text} x {strings, rule objects}'
-            % (KMAX[t], KMAX[t], KMAX[t]) for t in KMAX}
+            '(a0,a1), break (a1,a2)} x {SMARTS, RING text} x {strings, rule objects}; plus aro: 12 '
+            'single seeds (benzene, toluene, phenol, pyridine, furan, pyrrole x {aromatic, Kekule '
+            'spelling}) x all non-empty rule sets of size <= %d from the base pool plus {aryl C-H, '
+            'aryl C-C, aryl C-O scission} (12 rules, 11 with a RING form) x {SMARTS, RING text} x '
+            '{strings, rule objects}; plus session: all ordered pairs of %d seed texts (every '
+            'distinct heavy-atom order of %s) generated one after the other with the same rules x '
+            'all non-empty rule sets of size <= %d from {C-C, C-H, C-O, O-H scission} x {SMARTS, '
+            'RING text} x {same rule objects, same caller-owned list of rule texts}'
+            % (KMAX[t], KMAX[t], KMAX[t], KMAX[t], len(W4.session_alphabet(t)),
+               ', '.join(W4.SESSION_MOLS[t]), KMAX[t]) for t in KMAX}
 RULE = ('each instance is generated by GenerateRxnNet and by the reference '
         'closure; states = species of the reference closures, transitions = '
         'rule applications (product sets) in them; an instance is non-trivial '
-        'when the closure has more species than seeds')
+        'when the closure has more species than seeds; in the session family '
+        'every network of a history is one evaluation (the second one made '
+        'with rules that already served the first)')
 ASSUMPTIONS = ['species identity is the canonical SMILES with all hydrogens '
                'explicit; RDKit RunReactants is trusted for SMARTS rules',
                'work budget: the rules may be applied at most 3 x |closure| x '
@@ -90,7 +120,15 @@ ASSUMPTIONS = ['species identity is the canonical SMILES with all hydrogens '
                'the stated valence filter is read as: a product is discarded '
                'iff some atom has a total valence above the DEFAULT valence '
                'of its element in RDKit\'s periodic table (S 2, P 3, I 1 ...), '
-               'whatever further valences the table lists']
+               'whatever further valences the table lists',
+               'aromaticity is RDKit\'s perception on the seed as written '
+               '(aromatic and Kekule spellings denote the same species); no '
+               'rule of the aromatic family matches a ring bond of an '
+               'aromatic ring, so ring opening is not explored',
+               'session family: a network is a function of the seeds and the '
+               'rules as given, whatever the rule objects served before; the '
+               'harness\'s counting wrappers stay around the rule objects '
+               'for the whole history']
 MANIFEST = dict(
     technique='explicit-state closure: independent BFS over species vs the '
               'generator, with a counted work budget for termination',
@@ -99,11 +137,16 @@ MANIFEST = dict(
          '- as a multiset of species - the independently computed '
          'breadth-first closure: every seed, everything reachable under the '
          'valence filter, nothing else, nothing twice, within a rule-'
-         'application budget proportional to the closure.',
+         'application budget proportional to the closure.  The same holds '
+         'for aromatic seeds in either spelling, and for every network of a '
+         'two-step history made with the same rule objects / the same '
+         'caller-owned rule list.',
     note='Seeds up to three heavy atoms (four in the chain family, which has '
          'heavy-atom scissions only); heteroatom seeds have one carbon and '
          'one heteroatom; order-raising rules on heteroatoms in SMARTS form '
-         'only; bimolecular rules not covered.',
+         'only; bimolecular rules not covered.  Aromatic seeds: one ring, '
+         'at most one substituent, rules never open the ring.  Histories '
+         'on the same rule objects: two networks, one seed each.',
     ref='5/C17')
 
 
@@ -188,23 +231,118 @@ def instance(R, seeds, rules, form, how, wit_only=False):
         R.sample(dict(seeds=list(seeds), rules=texts, species=len(exp),
                       transitions=ntrans, rule_applications=box['n']), limit=2)
         return
-    if isinstance(got, str):
-        cls = got.split(':')[0] + (':' + got.split(':')[1] if got.startswith('EXC') else '')
-        msg = got
-    else:
-        import collections
-        dup = [s for s, c in collections.Counter(got).items() if c > 1]
-        extra = sorted(set(got) - set(exp))
-        missing = sorted(set(exp) - set(got))
-        cls = ('duplicates' if dup and not extra and not missing else
-               'missing' if missing and not extra else
-               'extra' if extra and not missing else 'extra+missing')
-        msg = ('returned %d species for a closure of %d; listed twice: %s; not '
-               'in the closure: %s; missing: %s' % (len(got), len(exp), dup[:4],
-                                                    extra[:4], missing[:4]))
+    cls, msg = classify(got, exp)
     R.outcomes['closure:' + cls] += 1
     R.violation('%s:%s' % (cls, tag), 'seeds %s, rules %s (%s): %s' % (
         list(seeds), list(rules), tag, msg), wit)
+
+
+def classify(got, exp):
+    """(class, text) of a generated species list that differs from the closure."""
+    if isinstance(got, str):
+        cls = got.split(':')[0] + (':' + got.split(':')[1] if got.startswith('EXC') else '')
+        return cls, got
+    import collections
+    dup = [s for s, c in collections.Counter(got).items() if c > 1]
+    extra = sorted(set(got) - set(exp))
+    missing = sorted(set(exp) - set(got))
+    cls = ('duplicates' if dup and not extra and not missing else
+           'missing' if missing and not extra else
+           'extra' if extra and not missing else 'extra+missing')
+    msg = ('returned %d species for a closure of %d; listed twice: %s; not '
+           'in the closure: %s; missing: %s' % (len(got), len(exp), dup[:4],
+                                                extra[:4], missing[:4]))
+    return cls, msg
+
+
+_REF = {}
+
+
+def reference(seed, rules, form):
+    """Reference closure of one seed text (kept per process: the histories of
+    one shard name the same (text, rule set) many times)."""
+    key = (seed, tuple(rules), form)
+    if key not in _REF:
+        if form == 'smarts':
+            ref_rules = [CL.SmartsRule(RULES[r][0]) for r in rules]
+        else:
+            ref_rules = [CL.RingRule(RULES[r][1], RULES[r][2]) for r in rules]
+        _REF[key] = CL.closure((seed,), ref_rules)
+    return _REF[key]
+
+
+def session(R, steps, rules, form, mode):
+    """One history: the networks of steps[0], steps[1], ... (one seed text
+    each) are generated one after the other in this process with the SAME
+    rules - mode 'objects': the same rule objects, in a fresh list per call;
+    mode 'list': one caller-owned list of rule texts handed to every call
+    (the generator replaces its entries by the objects it builds).  Each
+    network is judged against the reference closure of its own seed; the
+    history stops at the first network that differs."""
+    from rdkit import Chem
+    from rdkit.Chem.AllChem import ReactionFromSmarts
+    from pgradd.RDkitWrapper import GenRxnNet
+    from pgradd.RINGParser import Read
+    if form == 'smarts':
+        texts = [RULES[r][0] for r in rules]
+    else:
+        texts = [rule_text(r) for r in rules]
+    box = dict(n=0, budget=0)
+    patched = []
+    try:
+        if mode == 'objects':
+            make = ReactionFromSmarts if form == 'smarts' else Read
+            objs = [Counting(make(t), box) for t in texts]
+            owned = None
+        else:
+            owned = list(texts)
+            for nm in ('Read', 'ReactionFromSmarts'):
+                if hasattr(GenRxnNet, nm):
+                    orig = getattr(GenRxnNet, nm)
+                    patched.append((nm, orig))
+                    setattr(GenRxnNet, nm,
+                            (lambda o: (lambda t: Counting(o(t), box)))(orig))
+        for i, seed in enumerate(steps):
+            exp, nspecies, ntrans = reference(seed, rules, form)
+            R.evals += 1
+            R.traces += 1
+            R.states += nspecies
+            R.transitions += ntrans
+            if nspecies > 1:
+                R.nontrivial += 1
+            if len(set(exp)) != len(exp):
+                R.outcomes['unjudged(two species share a hydrogen-suppressed form)'] += 1
+                continue
+            box['n'] = 0
+            box['budget'] = 3 * nspecies * len(rules) + 100
+            try:
+                res = GenRxnNet.GenerateRxnNet(
+                    [seed], list(objs) if owned is None else owned)
+                got = sorted(Chem.MolToSmiles(m) for m in res)
+            except Hang:
+                got = 'HANG'
+            except Exception as e:       # noqa
+                got = 'EXC:%s:%s' % (type(e).__name__, str(e)[:80])
+            if got == exp:
+                R.outcomes['closure:same'] += 1
+                if i:
+                    R.sample(dict(history=list(steps[:i + 1]), rules=texts, mode=mode,
+                                  species=len(exp), transitions=ntrans,
+                                  rule_applications=box['n']), limit=1)
+                continue
+            cls, msg = classify(got, exp)
+            R.outcomes['closure:' + cls] += 1
+            tag = 'session/%s/%s:step%d' % (form, mode, i + 1)
+            R.violation('%s:%s' % (cls, tag),
+                        'networks of %s generated one after the other with the same '
+                        'rules %s (%s, %s); network %d, seed %s: %s' % (
+                            list(steps[:i + 1]), list(rules), form, mode, i + 1, seed, msg),
+                        dict(kind='session', steps=list(steps[:i + 1]), rules=list(rules),
+                             form=form, mode=mode))
+            return
+    finally:
+        for nm, orig in patched:
+            setattr(GenRxnNet, nm, orig)
 
 
 def shards(tier, seed):
@@ -218,6 +356,10 @@ def shards(tier, seed):
             out.append(('hetero', x, form))
         for sd in W3.CHAIN_SEEDS:
             out.append(('chain', sd, form))
+        for sd in W4.ARO_SEEDS:
+            out.append(('aro', sd, form))
+        for first in W4.session_alphabet(tier):
+            out.append(('session', first, form))
     return out
 
 
@@ -240,6 +382,21 @@ def run_shard(shard, tier):
                 for how in ('strings', 'objects'):
                     instance(R, (ss,), rs, form, how)
         return R
+    if fam == 'aro':
+        for k in range(1, KMAX[tier] + 1):
+            for rs in itertools.combinations(ARO, k):
+                if form == 'ring' and any(RULES[r][1] is None for r in rs):
+                    continue
+                for how in ('strings', 'objects'):
+                    instance(R, (ss,), rs, form, how)
+        return R
+    if fam == 'session':
+        for second in W4.session_alphabet(tier):
+            for k in range(1, KMAX[tier] + 1):
+                for rs in itertools.combinations(W4.SESSION_RULES, k):
+                    for mode in W4.SESSION_MODES:
+                        session(R, (ss, second), rs, form, mode)
+        return R
     for k in range(1, KMAX[tier] + 1):
         for rs in itertools.combinations(sorted(POOL), k):
             if form == 'ring' and any(POOL[r][1] is None for r in rs):
@@ -251,6 +408,9 @@ def run_shard(shard, tier):
 
 def replay(w):
     R = Result()
-    instance(R, tuple(w['seeds']), tuple(w['rules']), w['form'], w['how'])
+    if w.get('kind') == 'session':
+        session(R, tuple(w['steps']), tuple(w['rules']), w['form'], w['mode'])
+    else:
+        instance(R, tuple(w['seeds']), tuple(w['rules']), w['form'], w['how'])
     return dict(violates=bool(R.violations),
                 detail='\n'.join(v['msg'] for v in R.violations) or 'holds')
